@@ -1969,6 +1969,72 @@ example : line ([] ++ ('.' :: (['d', 'b'] ++ ([' '] ++ ((Item.num (text [(false,
     (by unfold blanks; decide) (Or.inr ⟨Or.inl rfl, rfl⟩)
 example : directiveOfName ['d', 'b'] = .db ∧ value 10 [(false, 1), (false, 0)] = 10 := by decide
 
+/-! ### the decimal text Rust's `Display` (and `Nat.repr`) prints is a number text -/
+
+theorem toDigitsCore_digitsRev : ∀ (f n : Nat) (ds : List Char),
+    Nat.toDigitsCore 10 f n ds = ((digitsRev 10 f n).reverse.map Nat.digitChar) ++ ds := by
+  intro f
+  induction f with
+  | zero => intro n ds; simp [Nat.toDigitsCore, digitsRev]
+  | succ f ih =>
+    intro n ds
+    simp only [Nat.toDigitsCore, digitsRev]
+    by_cases h : n < 10
+    · have h0 : n / 10 = 0 := Nat.div_eq_of_lt h
+      have hm : n % 10 = n := Nat.mod_eq_of_lt h
+      simp [h, h0, hm]
+    · have h0 : n / 10 ≠ 0 := by omega
+      simp only [h, if_false, h0]
+      rw [ih]
+      simp
+
+theorem natToDec_eq (n : Nat) : natToDec n = (digitsRev 10 (n + 1) n).reverse.map Nat.digitChar := by
+  simp [natToDec, Nat.repr, Nat.toDigits, toDigitsCore_digitsRev]
+
+theorem digitChar_dec : ∀ d, d < 10 → Nat.digitChar d = digitChar false d := by decide
+
+/-- **every number below 2^63, as `Display` prints it, is read back as that number** -/
+theorem numText_natToDec (n : Nat) (hn : n < 2 ^ 63) : NumText (natToDec n) n := by
+  let cs : Numeral := (digitsRev 10 (n + 1) n).reverse.map fun d => (false, d)
+  have hmap : cs.map (·.2) = (digitsRev 10 (n + 1) n).reverse := by
+    simp [cs, List.map_map, Function.comp_def]
+  have hd : ∀ p ∈ cs, p.2 < 10 := by
+    intro p hp
+    simp only [cs, List.mem_map, List.mem_reverse] at hp
+    obtain ⟨d, hd, rfl⟩ := hp
+    exact digitsRev_lt 10 (by omega) _ _ d hd
+  have hval : value 10 cs = n := value_digits 10 (by omega) n cs hmap
+  have htext : text cs = natToDec n := by
+    rw [natToDec_eq]
+    simp only [text, cs, List.map_map, Function.comp_def]
+    apply List.map_congr_left
+    intro d hd
+    simp only [List.mem_reverse] at hd
+    exact (digitChar_dec d (digitsRev_lt 10 (by omega) _ _ d hd)).symm
+  have hlead : (∃ u, cs = [(u, 0)]) ∨ ∃ p ps, cs = p :: ps ∧ p.2 ≠ 0 := by
+    by_cases h0 : n = 0
+    · left; subst h0; exact ⟨false, by decide⟩
+    · right
+      obtain ⟨d, hl, hdne⟩ := digitsRev_last 10 (by omega) (n + 1) n (by omega) (by omega)
+      have hne : digitsRev 10 (n + 1) n ≠ [] := digitsRev_ne_nil 10 n n
+      cases hrev : (digitsRev 10 (n + 1) n).reverse with
+      | nil => simp at hrev; exact absurd hrev hne
+      | cons q qs =>
+        have hq : q = d := by
+          have h1 : (digitsRev 10 (n + 1) n).getLast? = some q := by
+            rw [← List.head?_reverse, hrev]; rfl
+          rw [hl] at h1; exact (Option.some.inj h1).symm
+        refine ⟨(false, q), qs.map (fun d => (false, d)), by show List.map _ (digitsRev 10 (n + 1) n).reverse = _; rw [hrev]; rfl, ?_⟩
+        simp only; rw [hq]; exact hdne
+  have := numText_dec cs hd (by rw [hval]; exact hn) hlead
+  rw [htext, hval] at this
+  exact this
+
+theorem numText_intToDec (n : Nat) (hn : n < 2 ^ 63) : NumText (intToDec (n : Int)) n := by
+  have : intToDec (n : Int) = natToDec n := by
+    simp [intToDec]
+  rw [this]; exact numText_natToDec n hn
+
 end Numbers
 
 /-! non-vacuity: 26 in the five spellings, followed by a comma -/
